@@ -161,6 +161,15 @@ func Index(opts Options, bopts index.Options) error {
 		}
 	}
 
+	if builder == nil {
+		// The archive has no regular files (it is empty or holds only directories),
+		// so the builder was never created. Index it as an empty repository.
+		builder, err = index.NewBuilder(bopts)
+		if err != nil {
+			return err
+		}
+	}
+
 	return builder.Finish()
 }
 
